@@ -89,7 +89,7 @@ func specOK(f mfrag, offField int) bool {
 	if plen == 0 {
 		return false
 	}
-	if offField > 8183 || f.off+f.length > 65535 {
+	if offField > 8191 || f.off+f.length > 65535 { // 13-bit field; the datagram must fit 65535 bytes
 		return false
 	}
 	return true
@@ -251,6 +251,10 @@ func monitorIn(kk key, in *layers.IPv4, offField int, ts int64, snap, reply stri
 	f := mfrag{off: offField * 8, ihl: int(in.IHL), length: int(in.Length), mf: fl&1 != 0, payload: append([]byte(nil), in.Payload...), ts: ts}
 	if f.length-4*f.ihl != len(f.payload) {
 		k.incons = true
+		lib.Stat("in:inconsistent-fragment")
+	}
+	if f.off+f.length > 65535 {
+		lib.Stat("in:beyond-65535")
 	}
 	wasComplete := k.complete
 	dup := false
@@ -294,13 +298,35 @@ func monitorIn(kk key, in *layers.IPv4, offField int, ts int64, snap, reply stri
 	if k.honest && !k.unknown {
 		p, complete := assembled(k)
 		switch {
+		case reply == "err":
+			sig := "frag4:valid-fragment-rejected"
+			if offField > 8183 {
+				sig += ":offset>8183"
+			}
+			lib.Finding("C13", sig+ihlTag(k), fmt.Sprintf("a well-formed fragment (offset %d, %d bytes) of an honest datagram is answered err", f.off, len(f.payload)))
+			k.honest = false
 		case !complete:
 			if reply != "none" {
-				lib.Finding("C13", "frag4:early-or-error", "honest incomplete fragment set answered "+trunc(reply))
+				lib.Finding("C13", "frag4:early"+ihlTag(k), "honest incomplete fragment set answered "+trunc(reply))
 			}
 		case complete && !wasComplete:
 			k.complete = true
 			lib.Stat("honest:completed")
+			if ihlTag(k) != "" {
+				lib.Stat("honest:completed:options")
+			}
+			if len(p) > 60000 {
+				lib.Stat("honest:completed:>60000B")
+			}
+			if len(k.frags) > 100 {
+				lib.Stat("honest:completed:>100-deliveries")
+			}
+			for _, g := range k.frags {
+				if g.off > 8183*8 {
+					lib.Stat("honest:completed:offset>8183")
+					break
+				}
+			}
 			if len(k.frags) >= 3 {
 				lib.Nontrivial()
 			}
@@ -333,6 +359,15 @@ func monitorIn(kk key, in *layers.IPv4, offField int, ts int64, snap, reply stri
 		}
 	} else if !k.honest {
 		lib.Stat("hostile-key-op")
+		if isOut {
+			lib.Stat("hostile:out")
+		}
+		if reply == "err" {
+			lib.Stat("hostile:err")
+			if len(k.frags) > 8000 {
+				lib.Stat("hostile:err-after-8000-fragments")
+			}
+		}
 		if isOut || reply == "err" {
 			lib.Nontrivial()
 		}
